@@ -460,3 +460,84 @@ def _ws_binop(self, ex, op, other, reflected, pc):
 
 
 WSeries.hv_binop = _ws_binop
+
+
+# ---------------------------------------------------------------------------------------------- loc assignment, group sums
+
+
+class _WLoc:
+    def __init__(self, f: WFrame):
+        self.f = f
+
+    def hv_setitem(self, ex, idx, v, pc):
+        if not (isinstance(idx, tuple) and len(idx) == 2 and isinstance(idx[0], WSeries) and isinstance(idx[1], str)):
+            raise Unsupported("window loc assignment pattern")
+        mask, col = idx
+        _assume("pandas df.loc[mask, col] = scalar: the column is overwritten exactly on the rows where mask is True")
+        if isinstance(v, WSeries):
+            raise Unsupported("window loc assignment of a series")
+        old = self.f.cols.get(col)
+        if old is None:
+            raise Unsupported("window loc assignment to a new column")
+        prev = z_ite(pyvc.truth(mask.prev), v, old.prev) if (mask.prev is not None and old.prev is not None) else None
+        cur = z_ite(pyvc.truth(mask.cur), v, old.cur) if (mask.cur is not None and old.cur is not None) else None
+        pn = z_and(z_not(pyvc.truth(mask.prev)), old.pnull) if (mask.prev is not None and old.pnull is not False) else False
+        cn = z_and(z_not(pyvc.truth(mask.cur)), old.cnull) if (mask.cur is not None and old.cnull is not False) else False
+        self.f.cols[col] = WSeries(self.f.w, prev, cur, pn, cn, old.dtype, col)
+        self.f.written.append(col)
+
+
+_old_wf_getattr = WFrame.hv_getattr
+
+
+def _wf_getattr(self, ex, attr, pc):
+    if attr == "loc":
+        return _WLoc(self)
+    return _old_wf_getattr(self, ex, attr, pc)
+
+
+WFrame.hv_getattr = _wf_getattr
+
+
+class WGroupSum:
+    """df.groupby(key)[col].sum(): per key value c, the sum of col over the rows with key == c (missing values skipped).
+    `term(c)` is the contribution of the window's current row."""
+
+    def __init__(self, w: Window, key: WSeries, val: WSeries):
+        self.w, self.key, self.val = w, key, val
+
+    def __deepcopy__(self, memo):
+        return self
+
+    def term(self, c):
+        return z_ite(z_and(to_z3(self.key.cur) == c, z_not(self.val.cnull)), self.val.cur, 0)
+
+    def total_term(self):
+        return z_ite(z_not(self.val.cnull), self.val.cur, 0)
+
+
+class _WGroupCol:
+    def __init__(self, gb: "WGroupBy", col: str):
+        self.gb, self.col = gb, col
+
+    def hv_call_method(self, ex, attr, args, kwargs, pc, env):
+        if attr == "sum":
+            _assume("pandas groupby(key)[col].sum(): one entry per key value holding the sum of the non-missing col values of its rows")
+            return WGroupSum(self.gb.f.w, self.gb.f.cols[self.gb.key], self.gb.f.cols[self.col])
+        raise Unsupported(f"groupby column .{attr}")
+
+
+def _wgb_getattr(self, ex, attr, pc):
+    if attr in self.f.cols:
+        return _WGroupCol(self, attr)
+    return NotImplemented
+
+
+def _wgb_getitem(self, ex, idx, pc):
+    if isinstance(idx, str) and idx in self.f.cols:
+        return _WGroupCol(self, idx)
+    raise Unsupported("groupby subscript")
+
+
+WGroupBy.hv_getattr = _wgb_getattr
+WGroupBy.hv_getitem = _wgb_getitem
